@@ -53,6 +53,7 @@ type Outcome struct {
 	PanicStage  string
 	Info        *analysis.ProgramInfo
 	Facts       map[string]ast.Atom // canonical key -> atom, internal predicates excluded
+	Overrun     *Overrun            // the bounded store aborted the evaluation (RunBounded)
 	NonGround   []string
 }
 
@@ -111,24 +112,77 @@ func ReadStore(store factstore.ReadOnlyFactStore, out *Outcome) {
 	}
 }
 
+// Overrun is the private panic value of a bounded store: more distinct non-internal facts were added than
+// the bound allows. With bound = size of the (finite, complete) reference model this is an unsoundness
+// verdict that needs no wall clock: a set-like store can only accept that many facts of the model.
+type Overrun struct{ Created, Bound int }
+
+type boundedStore struct {
+	factstore.FactStore
+	created *int
+	bound   int
+}
+
+func (b boundedStore) Add(a ast.Atom) bool {
+	ok := b.FactStore.Add(a)
+	if ok && !a.Predicate.IsInternalPredicate() {
+		*b.created++
+		if *b.created > b.bound {
+			panic(Overrun{*b.created, b.bound})
+		}
+	}
+	return ok
+}
+
+func (b boundedStore) Merge(s factstore.ReadOnlyFactStore) {
+	for _, p := range s.ListPredicates() {
+		s.GetFacts(ast.NewQuery(p), func(a ast.Atom) error {
+			b.Add(a)
+			return nil
+		})
+	}
+}
+
+// Bounded wraps store so that the evaluation is aborted (panic(Overrun)) once more than bound distinct facts of
+// non-internal predicates were added successfully.
+func Bounded(store factstore.FactStore, bound int) factstore.FactStore {
+	n := 0
+	return boundedStore{FactStore: store, created: &n, bound: bound}
+}
+
 // Run executes parse -> analysis -> EvalProgram on a store of the given kind, pre-loaded with extra.
 func Run(text string, extra []Fact, storeKind string, opts ...engine.EvalOption) (out Outcome) {
+	return RunBounded(text, extra, storeKind, -1, opts...)
+}
+
+// RunBounded is Run with a bound on the number of distinct non-internal facts the evaluation may add
+// (bound < 0: unbounded). Exceeding it aborts the evaluation and sets out.Overrun.
+func RunBounded(text string, extra []Fact, storeKind string, bound int, opts ...engine.EvalOption) (out Outcome) {
 	Analyze(text, &out, nil)
 	if out.ParseErr != nil || out.AnalysisErr != nil || out.Panic != "" {
 		return
 	}
-	store := NewStore(storeKind)
+	inner := NewStore(storeKind)
 	for _, f := range extra {
-		store.Add(f.ToAtom())
+		inner.Add(f.ToAtom())
+	}
+	store := inner
+	if bound >= 0 {
+		store = Bounded(inner, bound)
 	}
 	func() {
 		defer func() {
 			if r := recover(); r != nil {
+				if o, ok := r.(Overrun); ok {
+					out.Overrun = &o
+					return
+				}
 				out.Panic, out.PanicStage = fmt.Sprint(r), "eval"
 			}
 		}()
 		out.EvalErr = engine.EvalProgram(out.Info, store, opts...)
 	}()
+	store = inner
 	if out.Panic == "" {
 		ReadStore(store, &out)
 	}
